@@ -32,16 +32,17 @@ func (m *multiCase) toCase() *gen.Case {
 }
 
 type multiOpts struct {
-	maxFiles    int
-	allowNoID   bool
-	allowDupID  bool
-	bigMaps     bool // 6-12 entries in ordering-relevant maps (C12)
-	noMappings  bool
-	yamlFiles   bool
-	hostileText bool
-	sameDir     bool // all files in one directory (argument spelling == $ref spelling)
-	uniqueDefs  bool // definition names unique across files
-	blockPkgs   bool // packages assigned in contiguous blocks (no import cycles)
+	maxFiles      int
+	allowNoID     bool
+	allowDupID    bool
+	bigMaps       bool // 6-12 entries in ordering-relevant maps (C12)
+	noMappings    bool
+	yamlFiles     bool
+	hostileText   bool
+	sameDir       bool // all files in one directory (argument spelling == $ref spelling)
+	uniqueDefs    bool // definition names unique across files
+	blockPkgs     bool // packages assigned in contiguous blocks (no import cycles)
+	sharedRefText bool // every file gets its own definition "Base" used in an allOf through the identical text #/$defs/Base
 }
 
 var pkgPool = []string{"example.com/gen/pkga", "example.com/gen/pkgb", "example.com/other/pkga", "example.com/gen/sub/pkgc", "example.com/pkgd"}
@@ -104,6 +105,14 @@ func genMulti(t *rapid.T, c *core.Ctx, mo multiOpts) *multiCase {
 				model.Walk(d.Node, fix)
 			}
 		}
+		if mo.sharedRefText {
+			kinds := []model.Kind{model.KString, model.KInteger, model.KBoolean, model.KNumber}
+			base := &model.Node{Kind: model.KObject, Props: []model.Prop{{Name: fmt.Sprintf("own%c", 'a'+i), Node: &model.Node{Kind: kinds[i%len(kinds)]}}, {Name: "shared", Node: &model.Node{Kind: kinds[(i+1)%len(kinds)]}}}, Required: []string{"shared"}}
+			f.Defs = append(f.Defs, model.Def{Name: "Base", Node: base})
+			comp := &model.Node{Kind: model.KAllOf, Branches: []*model.Node{{Kind: model.KRef, Ref: "#/$defs/Base", Target: base},
+				{Kind: model.KObject, Props: []model.Prop{{Name: "extra", Node: &model.Node{Kind: model.KBoolean}}}}}}
+			f.Root.Props = append(f.Root.Props, model.Prop{Name: "composed", Node: comp})
+		}
 		m.files = append(m.files, f)
 	}
 	// cross-file references: file i -> file j > i
@@ -138,7 +147,9 @@ func genMulti(t *rapid.T, c *core.Ctx, mo multiOpts) *multiCase {
 	if !mo.noMappings {
 		seenID := map[string]bool{}
 		pool := pkgPool
-		if c.Avoid("packages.same_last_element") {
+		if c.Avoid("packages.same_last_element") && nf > 2 {
+			// known finding: a THIRD package importing two packages with the same last path element;
+			// with two files there is no third importer and the pool stays complete
 			c.ExcludedMap()["packages.same_last_element"]++
 			pool = nil
 			for _, p := range pkgPool {
@@ -158,6 +169,9 @@ func genMulti(t *rapid.T, c *core.Ctx, mo multiOpts) *multiCase {
 			if rapid.IntRange(0, 9).Draw(t, "map") >= 7 && !(mo.blockPkgs && defaultBlock == 2) {
 				if mo.blockPkgs {
 					defaultBlock, curPkg = 1, ""
+					if mo.sharedRefText && c.Avoid("outputs.same_package_two_files_same_definition_name") {
+						defaultBlock = 2 // at most one file in the default package/output... (they share one output anyway)
+					}
 				}
 				continue
 			}
@@ -166,7 +180,11 @@ func genMulti(t *rapid.T, c *core.Ctx, mo multiOpts) *multiCase {
 			}
 			pkg := rapid.SampledFrom(pool).Draw(t, "pkg")
 			if mo.blockPkgs {
-				if curPkg == "" || rapid.Bool().Draw(t, "newpkg") {
+				distinct := mo.sharedRefText && c.Avoid("outputs.same_package_two_files_same_definition_name")
+				if distinct {
+					c.ExcludedMap()["outputs.same_package_two_files_same_definition_name"]++
+				}
+				if curPkg == "" || distinct || rapid.Bool().Draw(t, "newpkg") {
 					curPkg = pkgOrder[nextPkg%len(pkgOrder)]
 					nextPkg++
 				}
